@@ -54,6 +54,8 @@ def cases(tier, seed):
                    "N": rnd.choice([20, 33]), "B": rnd.choice([1, 7, 12]), "batch": rnd.choice([[], [2]]), "seed": rnd.randrange(10**6)}
         for obj, strat in itertools.product(["VariationalELBO", "PredictiveLogLikelihood"], ["VariationalStrategy", "UnwhitenedVariationalStrategy"]):
             yield {"kind": "nan_minibatch", "objective": obj, "strategy": strat, "beta": rnd.choice([0.3, 1.0]), "N": 30, "B": rnd.choice([6, 10]), "seed": rnd.randrange(10**6)}
+            for af in (False, True):
+                yield {"kind": "copy_objective", "objective": obj, "strategy": strat, "beta": rnd.choice([0.3, 1.0]), "N": 30, "B": 7, "after_forward": af, "seed": rnd.randrange(10**6)}
         for obj, wrapper, T, beta in itertools.product(["VariationalELBO", "PredictiveLogLikelihood"], ["indep", "lmc"], [2, 3], [1.0, 0.3]):
             yield {"kind": "definition_mt", "objective": obj, "wrapper": wrapper, "T": T, "beta": beta, "N": rnd.choice([20, 33]), "B": rnd.choice([1, 5, 9]), "seed": rnd.randrange(10**6)}
         for strat, q in itertools.product(["VariationalStrategy", "UnwhitenedVariationalStrategy"], ["random", "tinyS", "hugeS", "farmean", "prior", "optimal", "upper_garbage"]):
@@ -139,7 +141,7 @@ def run_case(case, ctx):
 
 
 def _dispatch(case, ctx, g):
-    return {"definition": _definition, "nan_minibatch": _nan_minibatch, "definition_mt": _definition_mt, "bound": _bound, "ngd": _ngd}[case["kind"]](case, ctx, g)
+    return {"definition": _definition, "nan_minibatch": _nan_minibatch, "copy_objective": _copy_objective, "definition_mt": _definition_mt, "bound": _bound, "ngd": _ngd}[case["kind"]](case, ctx, g)
 
 
 def _definition(case, ctx, g):
@@ -270,6 +272,51 @@ def _definition(case, ctx, g):
             ref_terms = -0.5 * ((yb - mean) ** 2 / (var + r) + torch.log(var + r) + math.log(2 * math.pi))
         ctx.close("per_point_terms", terms, ref_terms.expand(terms.shape), (1e-9, 1e-9), cls=cls + ":terms")
     ctx.cell({k: v for k, v in case.items() if k != "seed"}, nontrivial=float(kl.abs().max()) > 1e-3)
+
+
+def _copy_objective(case, ctx, g):
+    """a deep copy of (model, likelihood) keeps ITS objective when the original trains on: value of the copy's ELBO / PLL after
+    the original's hyper-parameters, variational parameters and inducing points have moved = value before"""
+    import copy
+
+    import torch
+
+    import gpytorch
+    from vf import util
+    from vf.checks import c14
+
+    N, B = case["N"], case["B"]
+    m = _model(case["strategy"], "CholeskyVariationalDistribution", util.randn(g, M_, D), [])
+    util.randomize(m.mean_module, g, 0.5)
+    util.randomize(m.covar_module, g, 0.4)
+    c14._randomize_vd(m.variational_strategy._variational_distribution, "CholeskyVariationalDistribution", g)
+    _init_flags(m)
+    lik = gpytorch.likelihoods.GaussianLikelihood()
+    util.randomize(lik, g, 0.4)
+    X, y = util.randn(g, B, D), util.randn(g, B)
+    m.train()
+    lik.train()
+    mk = lambda l_, m_: getattr(gpytorch.mlls, case["objective"])(l_, m_, num_data=N, beta=case["beta"])
+    if case["after_forward"]:
+        mk(lik, m)(m(X), y)  # a training forward pass has happened (autograd on) before the snapshot is taken
+    try:
+        m2, lik2 = copy.deepcopy((m, lik))
+    except Exception as e:
+        ctx.reject(f"deepcopy of a used variational model raised {type(e).__name__} (C18's known finding)")
+        return
+    with torch.no_grad():
+        before = mk(lik, m)(m(X), y)
+        g2 = util.gen(case["seed"] + 5)
+        util.randomize(m.mean_module, g2, 0.8)
+        util.randomize(m.covar_module, g2, 0.8)
+        util.randomize(lik, g2, 0.8)
+        c14._randomize_vd(m.variational_strategy._variational_distribution, "CholeskyVariationalDistribution", g2)
+        m.variational_strategy.inducing_points.add_(0.4)
+        after = mk(lik2, m2)(m2(X), y)
+        m2.eval()
+        pm = m2(X)
+    ctx.close("objective_matches_definition", after, before, (1e-10, 1e-10), cls=f"{case['objective'][:6]}:copy_after_original_moved:{case['strategy'][:6]}")
+    ctx.cell({k: v for k, v in case.items() if k != "seed"}, nontrivial=True)
 
 
 def _nan_minibatch(case, ctx, g):
